@@ -26,11 +26,19 @@ type SioClient struct {
 	Socket  sio.ClientSocket
 	Nsp     string
 
+	// OnLife, when set, is called after each lifecycle event was recorded.
+	OnLife func(kind string)
+
 	mu   sync.Mutex
 	Life []LifeEvent
 }
 
 func (c *SioClient) add(kind, reason string) {
+	defer func() {
+		if c.OnLife != nil {
+			c.OnLife(kind)
+		}
+	}()
 	id := ""
 	if c.Socket != nil {
 		id = string(c.Socket.ID())
@@ -89,6 +97,8 @@ type SrvSock struct {
 	Socket sio.ServerSocket
 	Nsp    string
 	ConnAt int64
+	// ClosedEarly: the socket was already closed when the connection handler had attached its handlers.
+	ClosedEarly bool
 
 	mu   sync.Mutex
 	Life []LifeEvent
@@ -114,17 +124,49 @@ type SrvReg struct {
 	mu    sync.Mutex
 	Socks []*SrvSock
 	OnNew func(s *SrvSock)
+	early map[sio.ServerSocket]*SrvSock
 }
 
 func (w *World) NewSrvReg() *SrvReg { return &SrvReg{W: w} }
 
 // Watch registers the recorder on a namespace.
+//
+// The handlers are attached in a namespace middleware, that is before the socket is admitted: the
+// connection handler runs on a goroutine of its own, concurrently with whatever happens to the
+// socket next, and a handler attached there can miss the very event it is meant to see (the socket
+// may already be closed). Sockets that skip the middlewares (recovered sessions with
+// UseMiddlewares off) get their handlers in the connection handler.
 func (r *SrvReg) Watch(n *sio.Namespace) {
-	n.OnConnection(func(socket sio.ServerSocket) {
-		s := &SrvSock{W: r.W, Socket: socket, Nsp: n.Name(), ConnAt: r.W.E.Now()}
-		socket.OnDisconnecting(func(reason sio.Reason) { s.add("disconnecting", string(reason)+fmt.Sprintf(" rooms=%d", socket.Rooms().Cardinality())) })
+	attach := func(socket sio.ServerSocket) *SrvSock {
+		s := &SrvSock{W: r.W, Socket: socket, Nsp: n.Name()}
+		socket.OnDisconnecting(func(reason sio.Reason) {
+			s.add("disconnecting", string(reason)+fmt.Sprintf(" rooms=%d", socket.Rooms().Cardinality()))
+		})
 		socket.OnDisconnect(func(reason sio.Reason) { s.add("disconnect", string(reason)) })
 		socket.OnError(func(err error) { s.add("error", err.Error()) })
+		return s
+	}
+	n.Use(func(socket sio.ServerSocket, _ *sio.Handshake) any {
+		s := attach(socket)
+		r.mu.Lock()
+		if r.early == nil {
+			r.early = map[sio.ServerSocket]*SrvSock{}
+		}
+		r.early[socket] = s
+		r.mu.Unlock()
+		return nil
+	})
+	n.OnConnection(func(socket sio.ServerSocket) {
+		r.mu.Lock()
+		s := r.early[socket]
+		delete(r.early, socket)
+		r.mu.Unlock()
+		if s == nil {
+			s = attach(socket)
+			// the socket may have been closed before the handlers above were attached, and then nobody calls them
+			s.ClosedEarly = !socket.Connected()
+		}
+		s.ConnAt = r.W.E.Now()
 		r.mu.Lock()
 		r.Socks = append(r.Socks, s)
 		r.mu.Unlock()
